@@ -334,6 +334,21 @@ func (c *Ctx) mcChunk(cfg *MCConfig, gs []*gast.Grammar, base int, rng *rand.Ran
 			if !mb.Capped && len(compareModel(cfg.Compare, cs, r, mb)) == 0 {
 				v.Sig = append(v.Sig, "F20-memo-predicate-labels")
 			}
+			if outerLabelAction(cs.u.G) {
+				// known finding F25: Memoize caches the result of an action expression per (expression, offset)
+				// although the action may read labels bound before it in the enclosing sequence, which differ
+				// when the action expression is reached at the same offset after a different prefix. The
+				// observation (block trace included) equals the model variant that caches every
+				// (expression, offset) result, and the grammar has such an action.
+				mc := ref.Run(cs.u.G, cs.in, ref.Opts{Entry: cs.entry, File: cs.os.File, AllowInvalid: cs.os.AllowInvalid, NoRecover: cs.os.NoRecover,
+					MaxExpr: cs.os.MaxExpr, MaxEvents: 4000, StepCap: 400000, MemoAll: true, Init: cs.os.Init})
+				if cfg.StalePS != "" && cfg.Compare&CmpTrace != 0 {
+					maskPS(mc.Trace, r.Trace)
+				}
+				if !mc.Capped && len(compareModel(cfg.Compare, cs, r, mc)) == 0 && (cfg.Compare&CmpTrace == 0 || traceDiff(mc.Trace, r.Trace) == nil) {
+					v.Sig = append(v.Sig, "F25-memo-action-outer-labels")
+				}
+			}
 			if cfg.Compare&CmpNoMatch != 0 {
 				// known finding F23: a cache hit does not record again what the cached evaluation recorded
 				// for the farthest failure; when the first evaluation ran under the other predicate
@@ -830,4 +845,29 @@ func traceSelfConsistent(in []byte, trace []string) *diff {
 		}
 	}
 	return nil
+}
+
+// outerLabelAction reports whether some action of the grammar reads a label that is bound outside
+// the action's own expression (earlier in the enclosing sequence): `e:X ( Y { uses e } )`.
+func outerLabelAction(g *gast.Grammar) bool {
+	found := false
+	for _, r := range g.Rules {
+		gast.Walk(r.Expr, func(e *gast.Expr) {
+			if found || e.Kind != gast.Action || e.Code == nil {
+				return
+			}
+			inner := map[string]bool{}
+			gast.Walk(e, func(x *gast.Expr) {
+				if x.Kind == gast.Labeled {
+					inner[x.Label] = true
+				}
+			})
+			for _, p := range e.Params {
+				if !inner[p] {
+					found = true
+				}
+			}
+		})
+	}
+	return found
 }
